@@ -350,7 +350,29 @@ class OpenAudit:
 
 
 def decimals_of(fmt):
-    return int(fmt[1:-1])
+    return int(fmt[1:-1]) if fmt[-1] in 'fge' else int(fmt[1:])
+
+
+FLOAT_FORMATS = ['.0f', '.1f', '.3f', '.3f', '.3f', '.6f', '.8f', '.3', '.5', '.3g', '.6g', '.4e', '.2e']
+
+
+def print_tol(fmt, v):
+    """Half a unit of the last digit that the float format prints for the exact value v (Fraction)."""
+    if fmt.endswith('f'):
+        return Fraction(1, 2 * 10 ** decimals_of(fmt))
+    n = decimals_of(fmt)
+    sig = n + 1 if fmt.endswith('e') else max(n, 1)     # '.4e': 5 significant digits; '.3' / '.3g': 3
+    if v == 0:
+        return Fraction(0)
+    a = abs(v)
+    e10 = 0
+    while a >= 10:
+        a /= 10
+        e10 += 1
+    while a < 1:
+        a *= 10
+        e10 -= 1
+    return Fraction(10) ** (e10 - sig + 1) / 2
 
 
 def run_rp66v1(ctx, p, audit):
@@ -380,7 +402,7 @@ def run_rp66v1(ctx, p, audit):
             chans = random_channels(rng, names0, names0[0])
             method = rng.choice(['first', 'first', 'mean', 'median', 'min', 'max'])
             width = rng.choice([8, 12, 16, 16, 20, 24])
-            ffmt = rng.choice(['.0f', '.1f', '.3f', '.3f', '.6f', '.8f'])
+            ffmt = rng.choice(FLOAT_FORMATS)
             out_dir = os.path.join(tmp, 'o%d_%d' % (si, k))
             path_out = os.path.join(out_dir, 's%d.dlis' % si)
             w = {'format': 'rp66v1', 'selector': '%s%s' % (kind, args), 'selector_kind': kind, 'selector_args': list(args), 'channels': chans,
@@ -420,11 +442,10 @@ def run_rp66v1(ctx, p, audit):
                         ch = ft.channels[ci]
                         v, sabs = reduce_exact(fr.values[ci], method)
                         isint = not ch.dtype.startswith('float')
-                        dd = 0 if isint else d
                         u = Fraction(1, 2 ** 53) if (isint or ch.dtype == 'float64') else Fraction(1, 2 ** 24)
                         extra_tol = Fraction(21, 10) * u * sabs if method in ('mean', 'median') and ch.count > 1 else 0
                         row.append(v)
-                        trow.append(Fraction(1, 2 * 10 ** dd) + extra_tol + abs(v) * Fraction(1, 10 ** 15))
+                        trow.append((Fraction(1, 2) if isint else print_tol(ffmt, v)) + extra_tol + abs(v) * Fraction(1, 10 ** 15))
                     frames.append(row)
                     tols.append(trow)
                 xs = [Fraction(float(fr.values[0].flatten()[0])) for fr in ft.frames]
@@ -478,7 +499,7 @@ def run_bit(ctx, p, audit):
             names0 = ['X   '] + pm0.names_str
             chans = random_channels(rng, names0, 'X   ')
             width = rng.choice([12, 16, 16, 20, 24])
-            ffmt = rng.choice(['.1f', '.3f', '.3f', '.6f', '.8f'])
+            ffmt = rng.choice(FLOAT_FORMATS[1:])
             out_dir = os.path.join(tmp, 'o%d_%d' % (si, k))
             path_out = os.path.join(out_dir, 's%d.bit' % si)
             w = {'format': 'bit', 'selector': '%s%s' % (kind, args), 'selector_kind': kind, 'selector_args': list(args), 'channels': chans,
@@ -518,7 +539,7 @@ def run_bit(ctx, p, audit):
                 for i in range(pm.frames):
                     row = [xs[i] if ci == 0 else chvals[ci][i] for ci in cols]
                     frames.append(row)
-                    tols.append([Fraction(1, 2 * 10 ** d) + abs(v) * Fraction(2, 10 ** 7) + Fraction(1, 10 ** 12) for v in row])
+                    tols.append([print_tol(ffmt, v) + abs(v) * Fraction(2, 10 ** 7) + Fraction(1, 10 ** 12) for v in row])
                 exp = {'columns': [names[ci] for ci in cols], 'frames': frames, 'tol': tols, 'indices': expected_indices(kind, args, pm.frames),
                        'sample_max': args[0] if kind == 'sample' else None, 'x': xs,
                        'sample_hints': _hints(S, kind, args, pm.frames),
